@@ -19,6 +19,7 @@ THEOREMS = [
     ("EG.props.C14", "C14_history_repr"),
     ("EG.props.C14", "C14_prop_checker_sound"),
     ("EG.props.C14", "C14_refuted_q_abort_on_malformed"),
+    ("EG.props.C14", "C14_unchanged_code_on_clean_histories"),
 ]
 HARNESSES = [
     dict(name="topic", pkg="pkg/object/mqttproxy", files=["harness/mqttproxy/zz_verif_c14_test.go"],
